@@ -303,6 +303,9 @@ func c18Memory(c *Ctx) {
 			}
 			for j := r.IntN(30); j > 0; j-- {
 				s := randSeq(r, alpha, r.IntN(6))
+				if r.IntN(6) == 0 {
+					s = randSeq(r, alpha, pick(r, []int{15, 16, 17, 31, 32, 33, 40}))
+				}
 				t.Add(s)
 				added = append(added, string(s))
 			}
